@@ -178,8 +178,8 @@ def run(ctx):
     for (nm, text, sc) in wprobs[:4]:
         found_input = True
         ctx.violation("c15-wrapper-" + nm.replace("|", "-"),
-                      "# C15 / C05 violated on the implementation's own transcript (wrapper matrix, one byte short inside a frame): %s\n# case %s (file|side|caller type|i=items f=frames b=raw bytes)\n--- script\n%s"
-                      % (text, nm, sc))
+                      "# C15 / C05 violated on the implementation's own transcript (wrapper matrix, one byte short inside a frame): %s\n# case %s (file|side|caller type|i=items f=frames b=raw bytes)\nc15-wrapper-case %s\n--- script\n%s"
+                      % (text, nm, nm, sc))
     corr += [(nm, k, "", a, b, sc) for (nm, k, a, b, sc) in wcorr]
 
     # ---------------- stage 3: K-complete enumeration on the implementation ----------------------------------------
@@ -283,6 +283,9 @@ def replay(ctx, path):
         print(text)
         ctx.report(path, no_input=True)
         return
+    if "c15-wrapper-case " in text:
+        from .. import c15wrap
+        return c15wrap.replay(ctx, path, text)
     head, script = text.split("--- script", 1)
     script = script.lstrip("\n")
     cat = next((l.split()[1] for l in head.split("\n") if l.startswith("c15-category ")), None)
